@@ -124,6 +124,16 @@ func genHdrTok(r *rand.Rand, maxEntries int) string {
 
 func payloadTok(r *rand.Rand, mode string, big bool) string {
 	switch mode {
+	case "named":
+		if r.Intn(8) == 0 {
+			return "~"
+		}
+		// among them octet strings that are themselves well-formed CBOR (a byte string head, a small map)
+		return [](func() string){
+			func() string { return hx(randBytes(r, []int{0, 1, 5, 23, 24, 100, 256}[r.Intn(7)])) },
+			func() string { return hx(append([]byte{0x42}, randBytes(r, 2)...)) },
+			func() string { return "a10126" },
+		}[r.Intn(3)]()
 	case "typed", "gomap":
 		if r.Intn(10) == 0 {
 			return "nil"
@@ -215,7 +225,7 @@ func (p *producedMsg) pubKeys() []string {
 }
 
 func genOne(r *rand.Rand, kind string, big bool) *producedMsg {
-	mode := []string{"raw", "raw", "rawmsg", "typed", "raw", "rawmsg", "typed", "gomap"}[r.Intn(8)]
+	mode := []string{"raw", "raw", "rawmsg", "typed", "raw", "rawmsg", "typed", "gomap", "named"}[r.Intn(9)]
 	algs := algsForKind(kind)
 	nkeys := 1
 	if kind == "sign" {
@@ -309,7 +319,26 @@ func tamperParts(r *rand.Rand, p *producedMsg) (kind string, data []byte, ext st
 	data = append([]byte{}, p.data...)
 	ext = p.ext
 	kind = p.kind
-	switch r.Intn(15) {
+	switch r.Intn(17) {
+	case 15, 16: // array shape: well-formed members appended or the last one dropped, head adjusted (the wire structs have a fixed arity)
+		start, spans := topMembers(data)
+		if start > 0 && len(spans) >= 3 && len(spans) < 20 {
+			if r.Intn(4) == 0 { // one member fewer
+				data = append(append([]byte{}, data[:spans[len(spans)-1][0]]...), data[spans[len(spans)-1][1]:]...)
+				data[start-1]--
+			} else {
+				extra := [][]byte{{0xf6}, {0x80}, {0x40}, {0xa0}, {0x00}, {0x81, 0x83, 0x40, 0xa0, 0x40}}
+				n := 1 + r.Intn(2)
+				end := spans[len(spans)-1][1]
+				tail := append([]byte{}, data[end:]...)
+				data = data[:end]
+				for j := 0; j < n; j++ {
+					data = append(data, extra[r.Intn(len(extra))]...)
+				}
+				data = append(data, tail...)
+				data[start-1] += byte(n)
+			}
+		}
 	case 0, 1: // bit flip anywhere
 		i := r.Intn(len(data))
 		data[i] ^= 1 << uint(r.Intn(8))
